@@ -85,6 +85,23 @@ Print Assumptions c14_refuted_witness_is_outside_the_window.
 Example c14_window_example : no_wrap_in_window c16 (wrap_progs (Z.to_nat 65534)) (wrap_sched (Z.to_nat 65534)).
 Proof. exact wrap_control_inside_window. Qed.
 
+(* "version bumped on every push": for unbounded versions the head version is a push counter - every step either keeps it
+   (free list unchanged or popped) or is a successful push and adds exactly one, so it never decreases and no two pushes
+   publish the same version.  Relies on `id.version = current_head.version + 1` sitting INSIDE the CAS retry loop of
+   deallocate (regenerated: push_bump_in_loop); hoisted out of the loop the version is relative to the first head loaded
+   and the model (like the code) lets the head version fall back after a retry.  The ABA argument
+   (c14_pop_cas_never_stale), uniqueness and c14_stale_never_matches are proved on top of this step behaviour. *)
+Theorem c14_push_bumps_version : forall c s t s', vmod c = 0 -> step c s t = Some s' ->
+  (hk (sh s') = hk (sh s) /\ (fl (sh s') = fl (sh s) \/ fl (sh s') = tl (fl (sh s)))) \/
+  (hk (sh s') = hk (sh s) + 1 /\ exists v, fl (sh s') = v :: fl (sh s)).
+Proof. exact id_push_bumps_version. Qed.
+Print Assumptions c14_push_bumps_version.
+Theorem c14_head_version_monotone : forall c sch s, vmod c = 0 -> hk (sh s) <= hk (sh (run st (step c) s sch)).
+Proof. exact id_head_version_monotone. Qed.
+Print Assumptions c14_head_version_monotone.
+Theorem c14_version_bump_inside_retry_loop : push_bump_in_loop = 1.
+Proof. reflexivity. Qed.
+
 (* an allocate that runs alone while the free list is not empty returns its top and mints nothing *)
 Theorem c14_reuse_when_quiet : forall c progs sch, no_wrap_in_window c progs sch ->
   let s := run st (step c) (init c progs) sch in
